@@ -41,10 +41,14 @@ func FirstLevelDecode(s string) ([]byte, error) {
 	return out, nil
 }
 
-// Name is a decoded RFC 1002 name: 16 raw bytes plus scope labels.
+// Name is a decoded RFC 1002 name: 16 raw bytes plus the scope, label by label as it stands on
+// the wire (RFC 1002 4.1: the scope identifier is a sequence of labels, a label never contains the
+// separating dot). Scope is the dotted presentation form of ScopeLabels; two different label
+// sequences can share it ("a.b" as one label or as two), so comparisons use ScopeLabels.
 type Name struct {
-	Raw   []byte
-	Scope string
+	Raw         []byte
+	ScopeLabels []string
+	Scope       string
 }
 
 // FromLabels interprets a label sequence as an RFC 1002 4.1 name.
@@ -60,5 +64,5 @@ func FromLabels(n dns.Name) (Name, error) {
 	for _, l := range n[1:] {
 		parts = append(parts, string(l))
 	}
-	return Name{raw, strings.Join(parts, ".")}, nil
+	return Name{raw, parts, strings.Join(parts, ".")}, nil
 }
